@@ -96,6 +96,19 @@ macro_rules! on_shape {
     };
 }
 
+/// folding an empty spectrum (zero-length axis) must not panic
+#[kani::proof]
+#[kani::unwind(8)]
+fn k_fold_empty() {
+    let scs = Scs::new(Vec::<f64>::new(), Shape(vec![0])).unwrap();
+    let f = scs.fold().into_spectrum(0.0);
+    assert!(f.elements() == 0, "folding an empty spectrum gives an empty spectrum");
+    let scs = Scs::new(Vec::<f64>::new(), Shape(vec![2, 0])).unwrap();
+    let f = scs.fold().into_spectrum(0.0);
+    assert!(f.elements() == 0, "folding an empty 2-D spectrum gives an empty spectrum");
+    kani::cover!(true);
+}
+
 on_shape!(k_fold_1, 8, check_fold([1]));
 on_shape!(k_fold_4, 8, check_fold([4]));
 on_shape!(k_fold_5, 8, check_fold([5]));
@@ -105,6 +118,6 @@ on_shape!(k_fold_3x3, 12, check_fold([3, 3]));
 on_shape!(k_fold_1x3, 8, check_fold([1, 3]));
 on_shape!(k_fold_2x3x2, 15, check_fold([2, 3, 2]));
 on_shape!(k_fold_2x2x2, 11, check_fold([2, 2, 2]));
-on_shape!(k_fold_3x1x2x2, 15, check_fold([3, 1, 2, 2]));
+on_shape!(k_fold_3x1x1x2, 9, check_fold([3, 1, 1, 2]));
 
 playback_tests!("fold");
